@@ -32,8 +32,11 @@ def build(rng, tier, facts, edges, name, nmax):
         if n > 1:
             for k in rng.sample(range(n), min(n, 4)):
                 q = k / (n - 1); qs += [q, nextafter(q, True) if q < 1 else q, nextafter(q, False) if q > 0 else q]
+        js = []
         for q in qs:
-            b.emit("q k %s" % f2h(q), (lambda q, snap: lambda a, env: oracle_quantile_unit(snap, q, env.alpha("k"), env.minidx("k"))(a))(q, snap))
+            js.append(b.emit("q k %s" % f2h(q), (lambda q, snap: lambda a, env: oracle_quantile_unit(snap, q, env.alpha("k"), env.minidx("k"))(a))(q, snap)))
+        # GetValuesAtQuantiles answers each entry of its list like the single query, whatever the order of the list
+        b.emit("qs k " + " ".join(f2h(q) for q in qs), lambda a, env, impl, js=list(js): None if a == ",".join(impl[j] for j in js) else "GetValuesAtQuantiles answered %s where the single queries answer %s" % (a, ",".join(impl[j] for j in js)))
     if rng.random() < 0.5 and len(vals) >= 4:
         # queries interleaved with additions: the guarantee holds after every prefix; later chunks revisit earlier values (existing bins)
         cuts = sorted(rng.sample(range(1, len(vals)), min(3, len(vals) - 1)))
